@@ -88,6 +88,10 @@ func (w *World) Run(restarts int) (res Result, err error) {
 		w.Cancel = cancel
 		w.canceled, w.passTerminal = false, false
 		w.mu.Unlock()
+		for _, a := range w.F.Env["0:1"] { // scripted before anything was called
+			w.Env(a)
+		}
+		delete(w.F.Env, "0:1")
 		ctrl, cerr := w.newController()
 		if cerr != nil {
 			cancel()
@@ -122,7 +126,7 @@ func (w *World) Run(restarts int) (res Result, err error) {
 				cancel()
 				<-done
 				w.mu.Lock()
-				if !w.anyTerminal && !w.C.Forked {
+				if !w.anyTerminal && !w.C.Forked && !w.F.Replay {
 					w.Rep.Violate("progress:no-completion", fmt.Sprintf("after %d quiescent points with all scripted faults consumed the migration has neither completed nor returned", maxSteps), w.ctxt())
 				}
 				w.mu.Unlock()
@@ -133,13 +137,15 @@ func (w *World) Run(restarts int) (res Result, err error) {
 			switch {
 			case !w.master:
 				act = "regain"
-			case w.grown < w.C.Growth && res.Steps%2 == 0:
+			case w.lateEnv():
+				// scripted actions whose call never came (the pass had fewer calls): now
+			case !w.F.Replay && w.grown < w.C.Growth && res.Steps%2 == 0:
 				act = "grow"
-			case w.destInt < w.contiguous():
+			case !w.F.Replay && w.destInt < w.contiguous():
 				act = "integrateall"
 			case w.C.Forked && w.pass >= 3+forkedRefusals:
 				act = "cancel" // a source that cannot prove consistency is refused pass after pass
-			case w.grown >= w.C.Growth && w.contiguous() >= w.srcSize && w.sthSize == w.srcSize:
+			case w.C.Cont && w.grown >= w.C.Growth && w.contiguous() >= w.srcSize && w.sthSize == w.srcSize && w.calls == 2: // an idle pass (GetRoot, STH, nothing to do) is asleep
 				res.Complete = true
 				act = "cancel"
 			}
@@ -179,4 +185,28 @@ func (w *World) Run(restarts int) (res Result, err error) {
 	res.DestInt, res.Passes = w.destInt, w.pass
 	w.mu.Unlock()
 	return res, nil
+}
+
+// lateEnv executes scripted environment actions of passes that are over or that have not had that many calls.
+func (w *World) lateEnv() bool {
+	done := false
+	for p := 0; p <= w.pass; p++ {
+		for n := 1; n <= 64; n++ {
+			if p == w.pass && n <= w.calls {
+				continue
+			}
+			key := fmt.Sprintf("%d:%d", p, n)
+			for _, a := range w.F.Env[key] {
+				if a == "revoke" || a == "cancel" {
+					w.envLocked(a)
+					done = true
+				}
+			}
+			if done {
+				delete(w.F.Env, key)
+				return true
+			}
+		}
+	}
+	return false
 }
